@@ -21,11 +21,13 @@ int pthread_mutex_lock(pthread_mutex_t* m) {
     (void)m;
     OBL(!g_mutex_held, "mutex is not acquired while already held (no self-deadlock)");
     g_mutex_held = 1; g_mutex_locks++;
+#ifndef MON_NO_DATA
     if (g_mon_data) {
         ND_ARR(unsigned char, hv, MON_MAX);
         size_t i;
         for (i = 0; i < g_mon_len && i < MON_MAX; i++) { g_mon_data[i] = hv[i]; if (g_mon_old) g_mon_old[i] = hv[i]; }
     }
+#endif
 #ifdef MON_HOOK
     MON_HOOK();
 #endif
